@@ -18,3 +18,10 @@ claim("C15",
       "lookups and membership tests are compared with a reference dictionary. Exhaustive inside the bound.",
       "Trusted: CPython, CrossHair path bookkeeping (+tally cross-check), z3; stub classes honour the eq/hash and to_bytes/from_bytes contracts.",
       "CrossHair symbolic execution (pattern D: solver-enumerated request histories) + z3", "DESIGN.md 2/C15")
+claim("C16",
+      "Bounded symbolic execution of the real DefaultQueue over operation histories: the pack and first operation form the "
+      "query group, every further operation is a solver variable; the queue is drained and the complete hand-out stream is "
+      "compared with the documented schedule (no work after stop, no repetition, inferral/initial/sets in order, repeated "
+      "exhaustion, do_level contract). Exhaustive inside the bound.",
+      "Trusted: CPython, CrossHair path bookkeeping (+tally cross-check), z3, the schedule oracle (validated on the pinned tree).",
+      "CrossHair symbolic execution (pattern D: solver-enumerated operation histories) + z3", "DESIGN.md 2/C16")
